@@ -13,17 +13,18 @@
 
 using namespace verif;
 
-struct HB { virtual ~HB() {} virtual void onCall(int id, int v) = 0; virtual bool onCond(int id, int v, bool hasArg) = 0; };
+struct HB { virtual ~HB() {} virtual void onCall(int id, int v) = 0; virtual bool onCond(int id, int v, bool hasArg, int selfCount) = 0; };
 static HB * g_h = nullptr;
 
 struct Fn : TrackedBase<TC_CALLBACK> {
 	explicit Fn(int i = 0) : TrackedBase<TC_CALLBACK>(i) {}
 	void operator()(int v) const { int my = id; if(alive()) g_h->onCall(my, v); }
 };
-struct CondArgs { int id; bool operator()(int v) const { return g_h->onCond(id, v, true); } };
-struct CondNoArgs { int id; bool operator()() const { return g_h->onCond(id, 0, false); } };
+// every condition carries its own evaluation counter (a stateful functor): the remover has to keep evaluating the one it stored
+struct CondArgs { int id; int n; bool operator()(int v) { return g_h->onCond(id, v, true, ++n); } };
+struct CondNoArgs { int id; int n; bool operator()() { return g_h->onCond(id, 0, false, ++n); } };
 // callable both ways: the remover has to pass the trigger's arguments ("with the trigger's arguments if it accepts them")
-struct CondBoth { int id; bool operator()(int v) const { return g_h->onCond(id, v, true); } bool operator()() const { return g_h->onCond(id, -12345, true); } };
+struct CondBoth { int id; int n; bool operator()(int v) { return g_h->onCond(id, v, true, ++n); } bool operator()() { return g_h->onCond(id, -12345, true, ++n); } };
 
 template <typename Th> struct P { using Threading = Th; };
 typedef eventpp::HeterTuple<void(int), void(const std::string &)> HT;
@@ -126,7 +127,7 @@ struct Harness : HB {
 		int id = newEntry(COND); ent[id].bits = bitsOf[pattern]; ent[id].withArgs = withArgs;
 		int beforeId; Handle bh = beforeHandle(pos, beforeId);
 		ctx.log(fmt("ConditionalRemover add (condition true at evaluation %s, %s arguments, %s) -> #%d", pattern == 3 ? "never" : fmt("%d", pattern + 1).c_str(), withArgs == 2 ? "takes or omits" : withArgs ? "takes" : "no", pos == 0 ? "append" : pos == 1 ? "prepend" : "insert before slot0", id));
-		if(withArgs == 2) handleOf[id] = A::addCond(*t, Fn(id), CondBoth{id}, pos, bh); else if(withArgs) handleOf[id] = A::addCond(*t, Fn(id), CondArgs{id}, pos, bh); else handleOf[id] = A::addCond(*t, Fn(id), CondNoArgs{id}, pos, bh);
+		if(withArgs == 2) handleOf[id] = A::addCond(*t, Fn(id), CondBoth{id, 0}, pos, bh); else if(withArgs) handleOf[id] = A::addCond(*t, Fn(id), CondArgs{id, 0}, pos, bh); else handleOf[id] = A::addCond(*t, Fn(id), CondNoArgs{id, 0}, pos, bh);
 		place(id, pos, beforeId);
 	}
 	void doRemove(int id, const char * who) {
@@ -151,7 +152,7 @@ struct Harness : HB {
 		frames.pop_back();
 	}
 
-	bool onCond(int id, int v, bool hasArg) override {
+	bool onCond(int id, int v, bool hasArg, int selfCount) override {
 		ctx.obs(7000 + id);
 		if(frames.empty()) { ctx.fail("condition-outside-trigger", "condition evaluated outside a trigger"); return false; }
 		Frame & f = frames.back();
@@ -162,6 +163,7 @@ struct Harness : HB {
 		condExpectedFor = id; condSeen = true;
 		if(hasArg && v != f.v) ctx.fail("condition-arguments", fmt("condition of #%d received %d instead of the trigger's argument %d", id, v, f.v));
 		Entry & e = ent[id];
+		if(selfCount != e.evals + 1) ctx.fail("condition-state-lost", fmt("the condition object of #%d is at its evaluation number %d, the remover has evaluated it %d times: it is not the stored object that is being evaluated", id, selfCount, e.evals + 1));
 		bool r = e.evals < 31 ? ((e.bits >> e.evals) & 1u) : false; ++e.evals;
 		ctx.log(fmt("  condition of #%d -> %d", id, (int)r));
 		return r;
